@@ -17,9 +17,10 @@ from vf.common import attempt, is_raised, bits_st, CLASSES
 
 RULE = ("case = history of 20..150 (quick) / up to 700 (thorough) steps: construct(class, string from a parametrised pool of token strings using every dtype incl. "
         "e4m3mxfp/e5m2mxfp/ue/se, multi-token, brackets), pack/unpack/readlist(format from a pool incl. keyword lengths with changing values), Dtype(token[, length][, "
-        "scale in {None,1,1.0,2,0.5}]), Array(dtype,...), mutate an earlier mutable result in place, bulk 'fill' of > 256 distinct keys (forces LRU evictions), set "
+        "scale in {None,1,1.0,2,0.5}]), Dtype(earlier Dtype, scale=...), pack/unpack/readlist with formats made of 1..3 fragments of a small pool given as one string or as a "
+        "list of strings and with good / missing / non-numeric / surplus keyword sets (failing calls are part of the history), Array(dtype,...), mutate an earlier mutable result in place, bulk 'fill' of > 256 distinct keys (forces LRU evictions), set "
         "lsb0 / bytealigned / mxfp_overflow. Oracle: the same call on cold caches in a sidecar process. Non-trivial = a call whose key was seen before under a "
-        "different option tuple, or after a mutation of its earlier result, or after >= 256 other distinct keys; distinct = SHA-1 of the history.")
+        "different option tuple, or after a mutation of its earlier result, or after >= 256 other distinct keys, or a format whose first item was used by an earlier different call, or any call after a Dtype-from-Dtype call; distinct = SHA-1 of the history.")
 ASSUMPTIONS = ["the cold oracle clears every callable exposing cache_clear that is reachable from the package's modules and classes; this discovery is cross-validated "
                "against fresh interpreters at the start of every run (mismatch = harness error, exit 2)",
                "results are compared as bits / value lists / exception class name / Dtype observables (name, length, bitlength, scale, build and parse of a probe)"]
@@ -101,6 +102,20 @@ def evaluate(call, keep=None):
                     obs.append(d.build(call[4]).bin)
                 except Exception as e:  # noqa
                     obs.append(['exc', type(e).__name__])
+            return ['ok', obs]
+        if kind == 'dtype_of_dtype':
+            token, length, scale1, scale2 = call[1], call[2], call[3], call[4]
+            args = [token] + ([length] if length is not None else [])
+            d0 = bs.Dtype(*args, scale=scale1) if scale1 is not None else bs.Dtype(*args)
+            d = bs.Dtype(d0, scale=scale2) if scale2 is not None else bs.Dtype(d0)
+            obs = []
+            for x in (d, d0):
+                obs += [x.name, x.length, x.bitlength, nv(x.scale), str(x)]
+                if x.bitlength:
+                    try:
+                        obs.append(nv(x.parse(bs.Bits(bin=('01011010' * 8)[:x.bitlength]))))
+                    except Exception as e:  # noqa
+                        obs.append(['exc', type(e).__name__])
             return ['ok', obs]
         if kind == 'array':
             a = bs.Array(call[1], call[2])
@@ -286,9 +301,59 @@ def string_pool_item(draw):
     return f'uint{n}={v % (1 << n)}, e4m3mxfp={draw(st.sampled_from([1000, -3000, 7]))}, ue={small}'
 
 
+FRAGS = [('uint:8', 5, 8), ('hex:8', 'a5', 8), ('bin:4', '1010', 4), ('uint:n', 1, None), ('int:n', -1, None), ('bool', True, 1), ('uint:9', 300, 9), ('int:7', -5, 7),
+         ('2*(uint:3)', (1, 2), 6), ('e4m3mxfp', 1000.0, 8), ('ue', 3, 5), ('bits:n', None, None), ('n*bool', None, None), ('pad:n', None, None), ('oct:3', '5', 3),
+         ('float:16', 1.5, 16), ('uint:m', 1, None)]
+
+
+def _frag_vals(frag, n):
+    f, v, _ = frag
+    if f == 'bits:n':
+        return ['0b' + '1' * n]
+    if f == 'n*bool':
+        return [True] * n
+    if f == 'pad:n':
+        return []
+    return list(v) if isinstance(v, tuple) else [v]
+
+
+KW_VARIANTS = ['good', 'good', 'good', 'good', 'missing', 'text', 'extra', 'zero', 'float', 'negative']
+
+
+def _kwargs(draw, n):
+    how = draw(st.sampled_from(KW_VARIANTS))
+    return {'good': {'n': n, 'm': 3}, 'missing': {}, 'text': {'n': 'four', 'm': 3}, 'extra': {'n': n, 'm': 3, 'zz': 1}, 'zero': {'n': 0, 'm': 3}, 'float': {'n': 2.5, 'm': 3},
+            'negative': {'n': -n, 'm': 3}}[how]
+
+
+@st.composite
+def frag_call_st(draw):
+    """pack / unpack / readlist whose format is 1..3 fragments of a small pool, as one string or as a list of strings, with good and bad keyword sets: the
+    same first fragment keeps coming back in other combinations"""
+    frs = draw(st.lists(st.sampled_from(FRAGS[:9] if draw(st.booleans()) else FRAGS), min_size=1, max_size=3))
+    n = draw(st.integers(1, 9))
+    as_list = draw(st.booleans())
+    fmt = [f[0] for f in frs] if as_list else ', '.join(f[0] for f in frs)
+    kw = _kwargs(draw, n)
+    what = draw(st.sampled_from(['pack', 'pack', 'unpack', 'readlist']))
+    if what == 'pack':
+        vals = [v for f in frs for v in _frag_vals(f, n)]
+        if draw(st.integers(0, 9)) == 0 and vals:
+            vals = vals[:-1]
+        return ['pack', fmt, vals, kw]
+    bits = draw(bits_st(max_len=80, min_len=0 if draw(st.integers(0, 5)) == 0 else 64))
+    return [what, bits, fmt, kw]
+
+
 @st.composite
 def call_st(draw):
-    k = draw(st.integers(0, 11))
+    k = draw(st.integers(0, 14))
+    if k == 12:
+        token = draw(st.sampled_from(['uint8', 'float16', 'int12', 'e4m3mxfp', 'uint', 'u8', 'mxint', 'hex']))
+        length = 8 if token in ('uint', 'hex') else None
+        return ['dtype_of_dtype', token, length, draw(st.sampled_from([None, None, 2, 0.5])), draw(st.sampled_from([None, 2, 4, 0.5, 1]))]
+    if k >= 13:
+        return draw(frag_call_st())
     if k <= 4:
         s = string_pool_item(draw)
         if k == 4:
@@ -381,10 +446,27 @@ def focused_options_st(draw, tier):
 
 
 @st.composite
+def format_focus_st(draw, tier):
+    steps = []
+    for _ in range(draw(st.integers(2, 10))):
+        steps.append(['call', draw(frag_call_st())])
+        if draw(st.integers(0, 3)) == 0:
+            steps.append(['repeat', draw(st.integers(0, 1000))])
+        if draw(st.integers(0, 5)) == 0:
+            steps.append(draw(st.sampled_from([['set', 'lsb0', True], ['set', 'lsb0', False], ['set', 'bytealigned', True], ['mutate', 0, 'invert']])))
+    return {'steps': steps}
+
+
+@st.composite
 def dtype_focus_st(draw, tier):
     token = draw(st.sampled_from(['uint8', 'float16', 'int12', 'e4m3mxfp', 'uintle16', 'hex8', 'mxint', 'bfloat']))
     steps = []
     for _ in range(draw(st.integers(2, 8))):
+        if draw(st.integers(0, 3)) == 0:
+            steps.append(['call', ['dtype_of_dtype', token, None, draw(st.sampled_from([None, None, 2, 0.5])), draw(st.sampled_from([None, 2, 4, 0.5, 1]))]])
+            tok2 = {'uint8': 'u8', 'float16': 'f16', 'int12': 'i12', 'hex8': 'h8'}.get(token, token)
+            steps.append(['call', [draw(st.sampled_from(['construct', 'fromstring'])), 'Bits', f'{tok2}=3' if not token.startswith('hex') else 'hex8=a5']])
+            steps.append(['call', ['read', '0101101001011010', tok2]])
         steps.append(['call', ['dtype', token, None, draw(st.sampled_from([None, 1, 1.0, 2, 2.0, 0.5, True])), draw(st.sampled_from([1, 2.0, 4]))]])
         if draw(st.integers(0, 3)) == 0:
             steps.append(['fill', draw(st.integers(0, 1000)), 300])
@@ -402,6 +484,7 @@ def run(case):
     distinct_keys = 0
     nt = False
     mutated_since = {}
+    first_items = set()
     labels = set()
     for si, step in enumerate(case['steps']):
         kind = step[0]
@@ -458,6 +541,14 @@ def run(case):
         ot = json.dumps(opts, sort_keys=True)
         if key in seen and (ot not in seen[key] or mutated_since.get(key) or distinct_keys >= 256):
             nt = True
+        if call[0] in ('pack', 'unpack', 'readlist'):
+            fmt = call[1] if call[0] == 'pack' else call[2]
+            first = fmt[0] if isinstance(fmt, list) else fmt.split(',')[0]
+            if key not in seen and first in first_items:
+                nt = True      # a format sharing its first item (cache key of the parser) with an earlier, different call
+            first_items.add(first)
+        if call[0] == 'dtype_of_dtype':
+            nt = nt or len(history) > 0
         if key not in seen:
             distinct_keys += 1
         seen.setdefault(key, set()).add(ot)
@@ -470,6 +561,7 @@ def run(case):
 SUBCHECKS = [
     Sub('C09.string_cache_options_and_mutation', run, strategy=focused_options_st, examples={'quick': 1500, 'thorough': 20000}),
     Sub('C09.literal_sharing', run, strategy=literal_sharing_st, examples={'quick': 1500, 'thorough': 20000}),
+    Sub('C09.format_cache', run, strategy=format_focus_st, examples={'quick': 1500, 'thorough': 20000}),
     Sub('C09.dtype_cache', run, strategy=dtype_focus_st, examples={'quick': 800, 'thorough': 10000}),
     Sub('C09.history', run, strategy=history_st, examples={'quick': 500, 'thorough': 6000}),
 ]
